@@ -71,15 +71,17 @@ def acpcBoard (ops : List Operation) : List Char :=
     | _ => []
 
 /-- the hole cards known for player `p`: dealt to him (written only for the viewer, or for everybody in
-    Pluribus form) or shown by him later; two slots, unknown cards leave a slot as it is -/
+    Pluribus form) at the positions they were dealt to, or shown by him later; two slots, unknown
+    cards leave a slot as it is.  The state carried along is (slots, cards dealt to `p` so far). -/
 def holeSlots (viewer : Option Nat) (p : Nat) (ops : List Operation) : List (List Char) :=
-  ops.foldl (fun slots op =>
-    let fill (cs : List Card) : List (List Char) :=
-      (cs.zipIdx.foldl (fun s (c, i) => if c.known && i < s.length then s.set i c.reprChars else s) slots)
+  (ops.foldl (fun (acc : List (List Char) × Nat) op =>
+    let fill (off : Nat) (cs : List Card) : List (List Char) :=
+      (cs.zipIdx.foldl (fun s (c, i) => if c.known && off + i < s.length then s.set (off + i) c.reprChars else s) acc.1)
     match op with
-    | .holeDealing q cs _ => if q = p && (viewer.isNone || viewer == some p) then fill cs else slots
-    | .holeCardsShowingOrMucking q cs => if q = p then fill cs else slots
-    | _ => slots) [[], []]
+    | .holeDealing q cs _ =>
+      if q = p then ((if viewer.isNone || viewer == some p then fill acc.2 cs else acc.1), acc.2 + cs.length) else acc
+    | .holeCardsShowingOrMucking q cs => if q = p then (fill 0 cs, acc.2) else acc
+    | _ => acc) ([[], []], 0)).1
 
 /-- the Pluribus result field -/
 def pluribusPayoffs (starting finishing : List Int) : List Int :=
